@@ -751,7 +751,10 @@ class TagAttributes(MutableMapping):
     def _etree_key(self, item: QualifiedName) -> str:
         namespace, name = item
 
-        if namespace and self._node._etree_obj.nsmap.get(None) != namespace:
+        if namespace and (
+            self._node._etree_obj.nsmap.get(None) != namespace
+            or f"{{{namespace}}}{name}" in self._etree_attrib
+        ):
             return f"{{{namespace}}}{name}"
         else:
             return name
